@@ -6,6 +6,7 @@ import (
 	"encoding/json"
 	"fmt"
 	"iter"
+	"reflect"
 	"sort"
 	"strings"
 	"time"
@@ -531,6 +532,35 @@ func c13SharedOptions(c *rep.Ctx) {
 			return res{"", sortLines(strings.ReplaceAll(fmt.Sprint(err), t, "<T>"))} // (paths are listed in map order)
 		}},
 	}
+	// an option list that is a prefix of a longer slice (spare capacity behind it): the caller's elements behind the
+	// prefix are the caller's
+	for _, set := range sets {
+		for _, op := range ops {
+			if !c.Take() || c.Expired() {
+				continue
+			}
+			c.StateN(1)
+			base := set.mk()
+			full := make([]gtree.Option, len(base)+3)
+			copy(full, base)
+			marker := gtree.WithStrictVerify()
+			full[len(base)], full[len(base)+2] = marker, marker
+			pan := guardMaybeMassive(strings.Contains(set.name, "massive"), func() {
+				j := fsx.NewJail("c13c")
+				defer j.Remove()
+				op.f(full[:len(base)], j.Target)
+			})
+			c.Eval()
+			desc := fmt.Sprintf("options {%s} passed as a prefix of a longer slice to %s", set.name, op.name)
+			if pan != "" {
+				c.Violation("C13|shared-options|crashed-or-hung", desc+": "+pan, 1, nil)
+			}
+			same := func(a, b gtree.Option) bool { return reflect.ValueOf(a).Pointer() == reflect.ValueOf(b).Pointer() }
+			if !same(full[len(base)], marker) || full[len(base)+1] != nil || !same(full[len(base)+2], marker) {
+				c.Violation("C13|shared-options|callers-slice-written-behind-the-prefix", desc+": the elements behind the prefix were overwritten", 1, nil)
+			}
+		}
+	}
 	for _, set := range sets {
 		for _, op1 := range ops {
 			for _, op2 := range ops {
@@ -564,6 +594,58 @@ func c13SharedOptions(c *rep.Ctx) {
 				if strings.Join(exts, "\x00") != extsBefore {
 					c.Violation("C13|shared-options|callers-slice-modified", fmt.Sprintf("%s: the extension list is now %q", desc, exts), 1, nil)
 					exts = strings.Split(extsBefore, "\x00")
+				}
+			}
+		}
+	}
+}
+
+// c13Nested: from inside a walk (callback, or the body of a range loop) the caller uses the same tree, or another one,
+// for a further operation: that operation gives what the tree predicts, and everything returns.
+func c13Nested(c *rep.Ctx) {
+	hist := []hop{{K: "N", T: 0, Name: "r"}, {K: "A", T: 0, Node: 0, Name: "a"}, {K: "A", T: 0, Node: 1, Name: "b"}, {K: "A", T: 0, Node: 0, Name: "b"},
+		{K: "N", T: 1, Name: "r"}, {K: "A", T: 1, Node: 0, Name: "x"}}
+	for _, outer := range []string{"callback", "iterator", "massive-callback"} {
+		for _, at := range []int{1, 2, 4} {
+			for _, inner := range []string{"T", "W", "J", "D", "F", "P", "PW", "V"} {
+				for _, t := range []int{0, 1} {
+					if !c.Take() || c.Expired() {
+						continue
+					}
+					c.StateN(1)
+					c.Inc("nested_histories")
+					w := &c13World{}
+					for _, h := range hist {
+						w.apply(h)
+					}
+					var got, want, ip string
+					n := 0
+					step := func() {
+						if n++; n == at {
+							got, want, ip = w.observe(inner, t)
+						}
+					}
+					pan := guardMaybeMassive(true, func() {
+						switch outer {
+						case "callback":
+							gtree.WalkFromRoot(w.real[0][0], func(*gtree.WalkerNode) error { step(); return nil })
+						case "massive-callback":
+							gtree.WalkFromRoot(w.real[0][0], func(*gtree.WalkerNode) error { step(); return nil }, gtree.WithMassive(context.Background()))
+						case "iterator":
+							for range gtree.WalkIterFromRoot(w.real[0][0]) {
+								step()
+							}
+						}
+					})
+					c.Eval()
+					desc := fmt.Sprintf("walk of tree 0 (%s), at its node %d: observation %s on tree %d", outer, at, inner, t)
+					if pan != "" || ip != "" {
+						c.Violation("C13|nested-operation-crashed-or-hung|"+outer, desc+": "+pan+ip, at, nil)
+						continue
+					}
+					if got != want {
+						c.Violation("C13|nested-operation-result|"+inner, fmt.Sprintf("%s:\n got: %s\nwant: %s", desc, got, want), at, nil)
+					}
 				}
 			}
 		}
@@ -711,6 +793,7 @@ func init() {
 		}
 		c13Repeat(c)
 		c13SharedOptions(c)
+		c13Nested(c)
 		c.R.Nontrivial = c.R.States
 		if c13Jail != nil {
 			c13Jail.Remove()
